@@ -81,6 +81,11 @@ def gen_cases(rng, tier):
     route = ["api_class", "api_legacy", "potable", "cli"][(i + i // 8) % 4]
     model = {"type": "pair", "target": "DL_POLY", "tab": {"nr": nr, "cutoff": cutoff}, "forms": [], "tables": [], "pair": [["Ar", "Ar", node]]}
     cases.append({"route": route, "model": model, "style": rng.randrange(1 << 30), "reject": False, "root_on_grid": k, "root_variant": rv})
+  # rejection does not depend on what is tabulated: an EMPTY list of potentials with a row count that is not a multiple
+  # of four (or with the four rows for which delpot = cutoff/(nr-4) does not exist) is refused all the same
+  for k_, nr_ in enumerate([5, 6, 7, 10, 4, 4]):
+    model = {"type": "pair", "target": "DLPOLY", "tab": {"nr": nr_, "cutoff": 6.0}, "forms": [], "tables": [], "pair": [] if k_ % 2 == 0 or nr_ != 4 else [["Ar", "Ar", {"k": "form", "name": "constant", "p": [1.0]}]]}
+    cases.append({"route": ["api_legacy", "api_class"][k_ % 2], "model": model, "style": k_, "reject": True, "empty_list": not model["pair"]})
   # a discontinuity exactly ON a row of a grid that is exact in doubles (first row, interior, the row at the cutoff), also
   # with one callable shared by two potentials: the energy pass and the force pass both revisit row 1 - judged strictly
   for i in range(28 if tier == "quick" else 196):
@@ -99,7 +104,9 @@ def run_reject(case, ctx, model, route, rng):
   nr = int(model["tab"]["nr"])
   cutoff = float(model["tab"]["cutoff"])
   ctx.cls("residue:%d" % (nr % 4))
-  ctx.nontrivial(len(model["pair"]) > 0)
+  ctx.nontrivial(len(model["pair"]) > 0 or bool(case.get("empty_list")))
+  if case.get("empty_list"):
+    ctx.cls("rejection_with_empty_potential_list")
   if route == "cli":
     text_in = emit.model_text(model, emit.Style(rng))
     res = routes.run_potable(["@IN", "@OUT"], text_in)
